@@ -646,25 +646,64 @@ fn find_mod_impl(block: &darklua_core::nodes::Block) -> Option<&darklua_core::no
     None
 }
 
-/// `local value = require('./value.<ext>')` bundled with require mode `path`; returns the
-/// expression the bundle inlines for the data file, as a (loose) S-expression
-fn bundle_expr(ext: &str, content: &str) -> Result<String, String> {
+/// the `generator` settings a bundle is produced with: every generator darklua has (the
+/// token-based `retain_lines` one is the default of `darklua process`, also reached by leaving
+/// the key out), and small column spans that move the line breaks of dense / readable around
+const BUNDLE_GENERATORS: [Option<&str>; 7] = [
+    Some("\"dense\""),
+    Some("\"readable\""),
+    Some("\"retain_lines\""),
+    None,
+    Some("{ \"name\": \"dense\", \"column_span\": 24 }"),
+    Some("{ \"name\": \"readable\", \"column_span\": 24 }"),
+    Some("{ \"name\": \"dense\", \"column_span\": 1 }"),
+];
+
+/// how the requiring file uses the data module (the inlined expression is the same)
+const BUNDLE_MAINS: [&str; 3] = [
+    "local value = require('./value.EXT')",
+    "return require('./value.EXT')",
+    "local t = { require('./value.EXT'), n = 1 }\nreturn t",
+];
+
+struct Bundled {
+    /// the expression of `__modImpl`, re-read by darklua's parser, as a loose S-expression
+    expr: String,
+    /// the same expression read from the bundle text by the independent reader (c14_lua.rs)
+    value: Result<LV, String>,
+}
+
+/// a Lua file requiring `./value.<ext>`, bundled with require mode `path` by the real
+/// `darklua_core::process` under the given generator setting
+fn bundle_expr(ext: &str, content: &str, generator: Option<&str>, main: &str) -> Result<Bundled, String> {
     let r = catch_unwind(AssertUnwindSafe(|| {
         let resources = darklua_core::Resources::from_memory();
         let w = |p: &str, c: &str| resources.write(p, c).map_err(|e| format!("{:?}", e));
-        w(".darklua.json", "{ \"rules\": [], \"generator\": \"dense\", \"bundle\": { \"require_mode\": \"path\" } }")?;
+        let config = match generator {
+            Some(g) => format!("{{ \"rules\": [], \"generator\": {}, \"bundle\": {{ \"require_mode\": \"path\" }} }}", g),
+            None => "{ \"rules\": [], \"bundle\": { \"require_mode\": \"path\" } }".to_owned(),
+        };
+        w(".darklua.json", &config)?;
         w(&format!("src/value.{}", ext), content)?;
-        w("src/main.lua", &format!("local value = require('./value.{}')", ext))?;
+        w("src/main.lua", &main.replace("EXT", ext))?;
         darklua_core::process(&resources, darklua_core::Options::new("src/main.lua").with_output("out.lua"))
             .map_err(|e| e.to_string())?
             .result()
             .map_err(|errs| errs.iter().map(|e| e.to_string()).collect::<Vec<_>>().join("; "))?;
         let out = resources.get("out.lua").map_err(|e| format!("{:?}", e))?;
-        let block = darklua_core::Parser::default().parse(&out).map_err(|e| format!("bundle output does not parse: {:?}", e))?;
+        let block = darklua_core::Parser::default()
+            .parse(&out)
+            .map_err(|e| format!("bundle output does not parse: {:?} in {}", e, clip(&out)))?;
         let e = find_mod_impl(&block).ok_or_else(|| format!("no __modImpl in the bundle: {}", out))?;
         let mut s = String::new();
         lua::expr_sexp(e, false, &mut s);
-        Ok::<_, String>(s)
+        // independent reading of the same text: the body of `function __modImpl()`
+        let value = match out.find("__modImpl") {
+            // the first occurrence is the definition `local function __modImpl()`
+            Some(at) => lua::eval_return_at(out.as_bytes(), at + "__modImpl".len()),
+            None => Err("no `__modImpl` in the bundle text".to_owned()),
+        };
+        Ok::<_, String>(Bundled { expr: s, value })
     }));
     match r {
         Ok(x) => x,
@@ -672,7 +711,8 @@ fn bundle_expr(ext: &str, content: &str) -> Result<String, String> {
     }
 }
 
-fn bundle_case(ctx: &mut Ctx, fmt: Fmt, text: &str) {
+/// bundle the document under the generator settings `gens` (indices into BUNDLE_GENERATORS)
+fn bundle_case(ctx: &mut Ctx, fmt: Fmt, text: &str, gens: &[usize]) {
     // what `convert` emits for the same document, re-read by the same parser
     let real = match parse_and_convert(fmt, text) {
         Parsed::Ok(r) => r,
@@ -691,47 +731,133 @@ fn bundle_case(ctx: &mut Ctx, fmt: Fmt, text: &str) {
         },
         Err(_) => return,
     };
-    let ext = match (fmt, text.len() % 2) {
-        (Fmt::Yaml, 0) => "yml",
-        (f, _) => f.name(),
-    };
-    ctx.report.hist("bundle", ext);
-    let input = json!({"kind": "bundle", "format": fmt.name(), "text": text, "extension": ext});
-    match bundle_expr(ext, text) {
-        Ok(b) if b == convert_expr => {
-            // the inlined expression is judged by the Lean reference semantics against the parsed data
-            if scope(&real.parsed).is_ok() {
-                let ans = ctx.model.ask(&format!("c14.eval {}", b));
-                match lean_val(&ans) {
-                    Ok(v) => {
-                        if let Err(e) = data_eq(&real.parsed, Some(&v), "$") {
-                            ctx.violation("oracle", "bundle-value-equals-parsed-data", e, input, true);
+    let in_scope = scope(&real.parsed).is_ok();
+    for &g in gens {
+        let generator = BUNDLE_GENERATORS[g % BUNDLE_GENERATORS.len()];
+        let main = BUNDLE_MAINS[(g / BUNDLE_GENERATORS.len() + text.len()) % BUNDLE_MAINS.len()];
+        let ext = match (fmt, (text.len() + g) % 2) {
+            (Fmt::Yaml, 0) => "yml",
+            (f, _) => f.name(),
+        };
+        ctx.report.hist("bundle", ext);
+        ctx.report.hist("bundle_generator", generator.unwrap_or("(absent: default retain_lines)"));
+        let input = json!({"kind": "bundle", "format": fmt.name(), "text": text, "extension": ext,
+            "generator": generator, "main": main});
+        match bundle_expr(ext, text, generator, main) {
+            Ok(b) if b.expr == convert_expr => {
+                if in_scope {
+                    // the inlined expression, read from the bundle text by the independent reader …
+                    match &b.value {
+                        Ok(v) => {
+                            if let Err(e) = data_eq(&real.parsed, Some(v), "$") {
+                                ctx.violation("oracle", "bundle-text-value-equals-parsed-data", e, input.clone(), true);
+                            }
                         }
+                        Err(e) => ctx.violation("oracle", "bundle-text-evaluates", e.clone(), input.clone(), true),
                     }
-                    Err(e) => ctx.violation("oracle", "bundle-value-evaluates", e, input, true),
+                    // … and by the Lean reference semantics on the re-parsed AST, against the parsed data
+                    let ans = ctx.model.ask(&format!("c14.eval {}", b.expr));
+                    match lean_val(&ans) {
+                        Ok(v) => {
+                            if let Err(e) = data_eq(&real.parsed, Some(&v), "$") {
+                                ctx.violation("oracle", "bundle-value-equals-parsed-data", e, input, true);
+                            }
+                        }
+                        Err(e) => ctx.violation("oracle", "bundle-value-evaluates", e, input, true),
+                    }
                 }
+                ctx.report.count("bundle_checked", 1);
             }
-            ctx.report.count("bundle_checked", 1);
+            Ok(b) => {
+                let what = format!("bundle inlines {} but convert emits {}", clip(&b.expr), clip(&convert_expr));
+                ctx.violation("oracle", "bundle-same-as-convert", what, input, true);
+            }
+            Err(e) => ctx.violation("oracle", "bundle-succeeds", e, input, true),
         }
-        Ok(b) => {
-            let what = format!("bundle inlines {} but convert emits {}", clip(&b), clip(&convert_expr));
-            ctx.violation("oracle", "bundle-same-as-convert", what, input, true);
-        }
-        Err(e) => ctx.violation("oracle", "bundle-succeeds", e, input, true),
+        ctx.case(None);
     }
-    ctx.case(None);
 }
 
-fn txt_case(ctx: &mut Ctx, content: &str) {
+fn txt_case(ctx: &mut Ctx, content: &str, g: usize) {
     ctx.report.hist("bundle", "txt");
+    let generator = BUNDLE_GENERATORS[g % BUNDLE_GENERATORS.len()];
+    let main = BUNDLE_MAINS[(g / BUNDLE_GENERATORS.len()) % BUNDLE_MAINS.len()];
+    ctx.report.hist("bundle_generator", generator.unwrap_or("(absent: default retain_lines)"));
     let expected = format!("(str {})", crate::model::hex(content.as_bytes()));
-    let input = json!({"kind": "bundle", "format": "txt", "text": content});
-    match bundle_expr("txt", content) {
-        Ok(b) if b == expected => ctx.report.count("bundle_checked", 1),
-        Ok(b) => ctx.violation("oracle", "txt-is-the-file-content", format!("inlined {} expected {}", clip(&b), clip(&expected)), input, true),
+    let input = json!({"kind": "bundle", "format": "txt", "text": content, "generator": generator, "main": main});
+    match bundle_expr("txt", content, generator, main) {
+        Ok(b) if b.expr == expected => {
+            match &b.value {
+                Ok(LV::Str(s)) if s.as_slice() == content.as_bytes() => ctx.report.count("bundle_checked", 1),
+                other => ctx.violation("oracle", "txt-text-is-the-file-content", format!("the bundle text reads as {:?}", other).chars().take(300).collect(), input, true),
+            }
+        }
+        Ok(b) => ctx.violation("oracle", "txt-is-the-file-content", format!("inlined {} expected {}", clip(&b.expr), clip(&expected)), input, true),
         Err(e) => ctx.violation("oracle", "bundle-succeeds", e, input, true),
     }
-    ctx.case(Some(format!("txt:{}", content)));
+    ctx.case(Some(format!("txt:{}:{}", g % BUNDLE_GENERATORS.len(), content)));
+}
+
+/// strings around every threshold of the string writer's choice between quoted and long-bracket
+/// form (20 / 60 bytes, 6 line feeds), with the endings and beginnings that matter for long
+/// brackets (`]`, `]]`, `]=`, `=]`, a leading line feed), and shorter / non-printable controls
+fn long_string_family() -> Vec<String> {
+    let mut out = Vec::new();
+    for &len in &[19usize, 20, 21, 59, 60, 61, 90] {
+        for &newlines in &[0usize, 5, 6, 7] {
+            for suffix in ["", "]", "]]", "]=", "=]", "]=]", " "] {
+                for prefix in ["", "\n", "[", "[["] {
+                    let fixed = prefix.len() + suffix.len();
+                    if fixed + 2 * newlines > len {
+                        continue;
+                    }
+                    let mut body = String::new();
+                    for i in 0..(len - fixed) {
+                        // line feeds spread over the body
+                        let remaining_nl = newlines.saturating_sub(body.matches('\n').count());
+                        if remaining_nl > 0 && i % 2 == 1 {
+                            body.push('\n');
+                        } else {
+                            body.push(*b"key value-x".get(i % 11).unwrap() as char);
+                        }
+                    }
+                    out.push(format!("{}{}{}", prefix, body, suffix));
+                }
+            }
+        }
+    }
+    // controls: the same sizes with a character that forbids the long-bracket form
+    out.push(format!("{}\t", "tab ".repeat(16)));
+    out.push(format!("{}\u{e9}", "accent ".repeat(10)));
+    out
+}
+
+/// directed documents: each string of the family as an object key, as a value and inside an
+/// array, in every format, converted and bundled under every generator setting
+fn directed_long_strings(ctx: &mut Ctx, rng: &mut Rng) {
+    let all: Vec<usize> = (0..BUNDLE_GENERATORS.len()).collect();
+    for (n, s) in long_string_family().into_iter().enumerate() {
+        let g = G::Obj(vec![
+            (gen::GKey::Str(s.clone()), G::Num(gen::GNum::Int("1".into()))),
+            (gen::GKey::Str("v".into()), G::Str(s.clone())),
+            (gen::GKey::Str("a".into()), G::Arr(vec![G::Str(s.clone()), G::Obj(vec![(gen::GKey::Str(s.clone()), G::Str(s.clone()))])])),
+        ]);
+        for (k, fmt) in [Fmt::Json, Fmt::Json5, Fmt::Yaml, Fmt::Toml].into_iter().enumerate() {
+            let text = gen::render(&g, fmt, rng);
+            doc_case(ctx, fmt, &text, Some(gen::g_to_p(&g)), "directed-long-strings");
+            // every generator on one format per string (rotating), the three named generators on all
+            if (n + k) % 4 == 0 {
+                bundle_case(ctx, fmt, &text, &all);
+            } else {
+                bundle_case(ctx, fmt, &text, &[0, 1, 2]);
+            }
+        }
+        txt_case(ctx, &s, n);
+    }
+    ctx.report.exhaustive.insert(
+        "long-string family (lengths 19/20/21/59/60/61/90 x 0/5/6/7 line feeds x 7 endings x 4 beginnings) as key, value and array element, per format, bundled with dense/readable/retain_lines".into(),
+        true,
+    );
 }
 
 fn replay_known(ctx: &mut Ctx) {
@@ -847,6 +973,12 @@ pub fn run(report: &mut Report, replay: Option<&str>) {
         doc_case(&mut ctx, Fmt::from_name(f).unwrap(), text, None, "fixed");
     }
     enumerated(&mut ctx, &mut rng);
+    // every fixed document bundled under every generator setting
+    let all_generators: Vec<usize> = (0..BUNDLE_GENERATORS.len()).collect();
+    for (f, text) in FIXED_DOCS {
+        bundle_case(&mut ctx, Fmt::from_name(f).unwrap(), text, &all_generators);
+    }
+    directed_long_strings(&mut ctx, &mut rng);
 
     let requests = ctx.model.requests;
     let keys = std::mem::take(&mut ctx.keys);
@@ -907,15 +1039,13 @@ fn random_phases(report: &mut Report, rng: &mut Rng, thread: usize, threads: usi
         }
         doc_case(&mut ctx, fmt, &text, Some(gen::g_to_p(&g)), "random");
         if i % 8 < 4 {
-            bundle_case(&mut ctx, fmt, &text);
+            // one generator setting per document, rotating (and the main-file shape with it)
+            bundle_case(&mut ctx, fmt, &text, &[i / 8 + thread]);
         }
-    }
-    for (f, text) in FIXED_DOCS {
-        bundle_case(&mut ctx, Fmt::from_name(f).unwrap(), text);
     }
     for i in 0..(n_docs / 20) {
         let content = if i == 0 { String::new() } else { gen::gen_string(rng) };
-        txt_case(&mut ctx, &content);
+        txt_case(&mut ctx, &content, i + thread);
     }
     // YAML documents that may leave the hypothesis (null / NaN / colliding keys): classified only
     let n_def = (if thorough { 160000 } else { 16000 }) / threads;
